@@ -29,14 +29,14 @@ pub enum Class {
     Fault,
 }
 
-#[derive(Clone, Copy, PartialEq, Eq, Debug)]
+#[derive(Clone, Copy, PartialEq, Eq, Debug, Serialize, Deserialize)]
 pub enum PKind {
     Read,
     Write,
     Flush,
 }
 
-#[derive(Clone, Copy, PartialEq, Eq, Debug)]
+#[derive(Clone, Copy, PartialEq, Eq, Debug, Serialize, Deserialize)]
 pub enum ReadMode {
     /// only the default (fill the buffer)
     Full,
@@ -46,7 +46,7 @@ pub enum ReadMode {
     Exhaustive,
 }
 
-#[derive(Clone, Copy, Debug)]
+#[derive(Clone, Copy, Debug, Serialize, Deserialize)]
 pub struct Menu {
     pub read_mode: ReadMode,
     pub short_writes: bool,
@@ -57,6 +57,8 @@ pub struct Menu {
     pub write_intr: bool,
     pub flush_fail: bool,
     pub flush_intr: bool,
+    /// keep a copy of every offered write buffer in the log
+    pub record: bool,
 }
 
 impl Menu {
@@ -71,7 +73,12 @@ impl Menu {
             write_intr: false,
             flush_fail: false,
             flush_intr: false,
+            record: true,
         }
+    }
+    pub fn no_record(mut self) -> Menu {
+        self.record = false;
+        self
     }
     pub fn shorts(read_mode: ReadMode, short_writes: bool) -> Menu {
         Menu { read_mode, short_writes, ..Menu::none() }
@@ -131,7 +138,7 @@ impl Env {
             sink: vec![],
             last_read_intr: false,
             last_write_intr: false,
-            record_offered: true,
+            record_offered: menu.record,
             diverged: false,
             first_fault: None,
         }
@@ -312,57 +319,109 @@ pub struct Stats {
     pub max_deviations: u32,
 }
 
+struct Shared<'a, R> {
+    src: &'a [u8],
+    menu: Menu,
+    budget: Budget,
+    run: &'a (dyn Fn(&EnvRef) -> R + Sync),
+    visit: &'a (dyn Fn(&Env, &R) + Sync),
+    executions: std::sync::atomic::AtomicU64,
+    max_points: std::sync::atomic::AtomicUsize,
+    max_dev: std::sync::atomic::AtomicU32,
+    error: std::sync::Mutex<Option<String>>,
+}
+
+/// one execution on `prefix`; returns the child prefixes (one more deviation after the prefix)
+fn step<R>(sh: &Shared<R>, prefix: &[u16]) -> Vec<Vec<u16>> {
+    use std::sync::atomic::Ordering::Relaxed;
+    let env = Rc::new(RefCell::new(Env::new(sh.src.to_vec(), sh.menu, prefix)));
+    let r = (sh.run)(&env);
+    let env = match Rc::try_unwrap(env) {
+        Ok(e) => e.into_inner(),
+        Err(_) => {
+            *sh.error.lock().unwrap() = Some("env still shared after run".into());
+            return vec![];
+        }
+    };
+    if env.diverged || env.points.len() < prefix.len() {
+        *sh.error.lock().unwrap() = Some(format!("replay divergence on prefix {:?} (points={})", prefix, env.points.len()));
+        return vec![];
+    }
+    sh.executions.fetch_add(1, Relaxed);
+    sh.max_points.fetch_max(env.points.len(), Relaxed);
+    let d = env.deviations();
+    sh.max_dev.fetch_max(d.0 + d.1 + d.2, Relaxed);
+    (sh.visit)(&env, &r);
+    let budget = sh.budget;
+    let mut children = vec![];
+    let mut used = (0u32, 0u32, 0u32);
+    for (i, p) in env.points.iter().enumerate() {
+        if i >= prefix.len() {
+            for alt in 1..p.alts.len() {
+                let ok = match p.alts[alt].1 {
+                    Class::ShortRead => used.0 < budget.short_reads && used.0 + used.1 < budget.shorts_total,
+                    Class::ShortWrite => used.1 < budget.short_writes && used.0 + used.1 < budget.shorts_total,
+                    Class::Fault => used.2 < budget.faults,
+                    Class::Default => false,
+                };
+                if ok {
+                    let mut child: Vec<u16> = env.points[..i].iter().map(|q| q.chosen as u16).collect();
+                    child.push(alt as u16);
+                    children.push(child);
+                }
+            }
+        }
+        match p.alts[p.chosen].1 {
+            Class::ShortRead => used.0 += 1,
+            Class::ShortWrite => used.1 += 1,
+            Class::Fault => used.2 += 1,
+            Class::Default => {}
+        }
+    }
+    children
+}
+
+fn go<R: Send>(sh: &Shared<R>, prefix: Vec<u16>, depth: u32) {
+    use rayon::prelude::*;
+    if depth < 2 {
+        let children = step(sh, &prefix);
+        children.into_par_iter().for_each(|c| go(sh, c, depth + 1));
+    } else {
+        let mut stack = vec![prefix];
+        while let Some(p) = stack.pop() {
+            stack.extend(step(sh, &p));
+        }
+    }
+}
+
 /// Enumerate every tape within `budget`. `run` executes the subject once on a fresh Env
 /// (built from `src`, `menu` and the tape prefix) and returns its result; `visit` is the oracle
-/// for that one complete execution. Returns Err on replay divergence (machinery error).
-pub fn explore<R>(
+/// for that one complete execution. Subtrees are explored in parallel (rayon). Returns Err on
+/// replay divergence (machinery error).
+pub fn explore<R: Send>(
     src: &[u8],
     menu: Menu,
     budget: Budget,
-    run: &dyn Fn(&EnvRef) -> R,
-    visit: &mut dyn FnMut(&Env, &R),
+    run: &(dyn Fn(&EnvRef) -> R + Sync),
+    visit: &(dyn Fn(&Env, &R) + Sync),
 ) -> Result<Stats, String> {
-    let mut stats = Stats { executions: 0, max_points: 0, max_deviations: 0 };
-    let mut stack: Vec<Vec<u16>> = vec![vec![]];
-    while let Some(prefix) = stack.pop() {
-        let env = Rc::new(RefCell::new(Env::new(src.to_vec(), menu, &prefix)));
-        let r = run(&env);
-        let env = Rc::try_unwrap(env).map_err(|_| "env still shared after run".to_string())?.into_inner();
-        if env.diverged || env.points.len() < prefix.len() {
-            return Err(format!("replay divergence on prefix {:?} (points={})", prefix, env.points.len()));
-        }
-        stats.executions += 1;
-        stats.max_points = stats.max_points.max(env.points.len());
-        let d = env.deviations();
-        stats.max_deviations = stats.max_deviations.max(d.0 + d.1 + d.2);
-        visit(&env, &r);
-        // children: deviate at a point after the prefix
-        let mut used = (0u32, 0u32, 0u32);
-        for (i, p) in env.points.iter().enumerate() {
-            if i >= prefix.len() {
-                for alt in 1..p.alts.len() {
-                    let ok = match p.alts[alt].1 {
-                        Class::ShortRead => used.0 < budget.short_reads && used.0 + used.1 < budget.shorts_total,
-                        Class::ShortWrite => used.1 < budget.short_writes && used.0 + used.1 < budget.shorts_total,
-                        Class::Fault => used.2 < budget.faults,
-                        Class::Default => false,
-                    };
-                    if ok {
-                        let mut child: Vec<u16> = env.points[..i].iter().map(|q| q.chosen as u16).collect();
-                        child.push(alt as u16);
-                        stack.push(child);
-                    }
-                }
-            }
-            match p.alts[p.chosen].1 {
-                Class::ShortRead => used.0 += 1,
-                Class::ShortWrite => used.1 += 1,
-                Class::Fault => used.2 += 1,
-                Class::Default => {}
-            }
-        }
+    use std::sync::atomic::Ordering::Relaxed;
+    let sh = Shared {
+        src,
+        menu,
+        budget,
+        run,
+        visit,
+        executions: Default::default(),
+        max_points: Default::default(),
+        max_dev: Default::default(),
+        error: std::sync::Mutex::new(None),
+    };
+    go(&sh, vec![], 0);
+    if let Some(e) = sh.error.lock().unwrap().take() {
+        return Err(e);
     }
-    Ok(stats)
+    Ok(Stats { executions: sh.executions.load(Relaxed), max_points: sh.max_points.load(Relaxed), max_deviations: sh.max_dev.load(Relaxed) })
 }
 
 /// Run once on a given tape (replay).
